@@ -174,9 +174,69 @@ fn lits(s: &str) -> Vec<Re> {
     s.chars().map(Re::Lit).collect()
 }
 
+/// one branch with explicit anchors: `^`? body (`\$` literal)? `$`?
+fn anchored_branch(rng: &mut Rng, start: bool, end: bool, dollar_lit: bool) -> Re {
+    let mut v = vec![];
+    if start {
+        v.push(Re::Start);
+    }
+    if rng.chance(1, 10) {
+        v.push(Re::Lit('^'));
+    }
+    match gen_concat(rng, &mut 4, 2, 1) {
+        Re::Concat(items) => v.extend(items),
+        other => v.push(other),
+    }
+    if dollar_lit {
+        v.push(Re::Lit('$'));
+    }
+    if end {
+        v.push(Re::End);
+    }
+    Re::Concat(v)
+}
+
+/// expressions that write `^` / `$` themselves: leading, trailing, both, around a top-level alternation,
+/// a trailing escaped `\$` literal. Read as "the whole line must match the regular expression".
+pub fn gen_anchored(rng: &mut Rng) -> Re {
+    match rng.weighted(&[30, 30, 20, 10, 10]) {
+        0 => {
+            let (st, en) = *rng.pick(&[(true, false), (false, true), (true, true)]);
+            let d = rng.chance(1, 6);
+            anchored_branch(rng, st, en, d)
+        }
+        // `^foo|bar$`: the anchors belong to the outer branches only
+        1 => {
+            let n = rng.range(2, 3);
+            Re::Alt(
+                (0..n)
+                    .map(|i| {
+                        let st = i == 0 || rng.chance(1, 5);
+                        let en = i == n - 1 || rng.chance(1, 5);
+                        let d = rng.chance(1, 8);
+                        anchored_branch(rng, st, en, d)
+                    })
+                    .collect(),
+            )
+        }
+        // `^costs 5\$`: starts with an anchor, ends with an escaped dollar literal
+        2 => {
+            let en = rng.chance(1, 4);
+            anchored_branch(rng, true, en, true)
+        }
+        3 => Re::Alt((0..2).map(|_| anchored_branch(rng, true, true, false)).collect()),
+        _ => {
+            let d = rng.chance(1, 4);
+            let alt = Re::Alt(vec![anchored_branch(rng, true, false, false), anchored_branch(rng, false, true, d)]);
+            Re::Concat(vec![Re::Group(Box::new(alt))])
+        }
+    }
+}
+
 pub fn gen_regex(rng: &mut Rng) -> Re {
     let mut budget = rng.range(2, 12) as i32;
-    match rng.weighted(&[55, 25, 12, 8]) {
+    match rng.weighted(&[47, 22, 11, 7, 13]) {
+        4 => gen_anchored(rng),
         0 => gen_concat(rng, &mut budget, 0, 0),
         1 => gen_alt(rng, &mut budget, 0),
         // hostile dictionary entry as literal text, possibly after an atom and before a repetition
